@@ -176,60 +176,94 @@ def r12_2(ctx, counts: dict[str, int]) -> RuleResult:
         if not sink_calls:
             continue
         cfg = CFG(f.node, calls_may_raise)
+        # names of f bound to raw argument text: free variables of the local helpers
+        raw_names = {t.id for x in walk_local(f.node)
+                     if isinstance(x, (ast.Assign, ast.AnnAssign)) and x.value is not None
+                     and isinstance(x.value, ast.Call)
+                     and dotted(x.value.func).split('.')[-1] == 'get_argument'
+                     for t in (x.targets if isinstance(x, ast.Assign) else [x.target])
+                     if isinstance(t, ast.Name)}
+        helper_ret: dict[str, set[str]] = {}
 
-        def expr_taint(e: ast.AST, st: State, n: Node) -> set[str]:
-            def sub(x: ast.AST) -> set[str]:
-                return T.value_taint(x, st, n)
-            if isinstance(e, ast.Call):
-                fn = dotted(e.func)
-                last = fn.split('.')[-1]
-                if last in ESCAPERS:
-                    return set()
-                if last == 'get_argument':
+        def make_taint(cfg_, free_raw: set[str]):
+            holder_T: list = []
+
+            def expr_taint(e: ast.AST, st: State, n: Node) -> set[str]:
+                T_ = holder_T[0]
+
+                def sub(x: ast.AST) -> set[str]:
+                    return T_.value_taint(x, st, n)
+                if isinstance(e, ast.Name) and e.id in free_raw and e.id not in st:
                     return {'raw'}
-                if last == 'defuse_xml' and e.args:
-                    return sub(e.args[0])
-                if last in ('encode', 'decode', 'strip', 'lstrip', 'rstrip', 'lower', 'upper') \
-                        and isinstance(e.func, ast.Attribute):
-                    return sub(e.func.value)
-                if last == 'format' and isinstance(e.func, ast.Attribute):
-                    ks: set[str] = set()
-                    for a in list(e.args) + [k.value for k in e.keywords]:
-                        ks |= sub(a)
-                    return {'fmt'} if ks & {'raw', 'fmt'} else set()
-                if last == 'join' and isinstance(e.func, ast.Attribute) and e.args:
-                    a = e.args[0]
+                if isinstance(e, ast.Call):
+                    fn = dotted(e.func)
+                    last = fn.split('.')[-1]
+                    if last in ESCAPERS:
+                        return set()
+                    if last == 'get_argument':
+                        return {'raw'}
+                    if last in helper_ret and isinstance(e.func, ast.Name):
+                        return set(helper_ret[last])
+                    if last == 'defuse_xml' and e.args:
+                        return sub(e.args[0])
+                    if last in ('encode', 'decode', 'strip', 'lstrip', 'rstrip', 'lower', 'upper') \
+                            and isinstance(e.func, ast.Attribute):
+                        return sub(e.func.value)
+                    if last == 'format' and isinstance(e.func, ast.Attribute):
+                        ks: set[str] = set()
+                        for a_ in list(e.args) + [k.value for k in e.keywords]:
+                            ks |= sub(a_)
+                        return {'fmt'} if ks & {'raw', 'fmt'} else set()
+                    if last == 'join' and isinstance(e.func, ast.Attribute) and e.args:
+                        a_ = e.args[0]
+                        ks = set()
+                        if isinstance(a_, ast.Name):
+                            ks |= {k[6:] for k in st.get(a_.id, ()) if k.startswith('holds:')}
+                        ks |= sub(a_)
+                        return {'fmt'} if ks & {'raw', 'fmt'} else set()
+                    return set()
+                if isinstance(e, ast.Subscript):
+                    return sub(e.value) & {'raw', 'fmt'}
+                if isinstance(e, ast.JoinedStr):
                     ks = set()
-                    if isinstance(a, ast.Name):
-                        ks |= {k[6:] for k in st.get(a.id, ()) if k.startswith('holds:')}
-                    ks |= sub(a)
+                    for v in e.values:
+                        if isinstance(v, ast.FormattedValue):
+                            ks |= sub(v.value)
+                    return {'fmt'} if ks & {'raw', 'fmt'} else set()
+                if isinstance(e, ast.BinOp) and isinstance(e.op, (ast.Add, ast.Mod)):
+                    ks = sub(e.left) | sub(e.right)
+                    if isinstance(e.op, ast.Mod) and isinstance(e.right, ast.Tuple):
+                        for x in e.right.elts:
+                            ks |= sub(x)
                     return {'fmt'} if ks & {'raw', 'fmt'} else set()
                 return set()
-            if isinstance(e, ast.Subscript):
-                return sub(e.value) & {'raw', 'fmt'}
-            if isinstance(e, ast.JoinedStr):
-                ks = set()
-                for v in e.values:
-                    if isinstance(v, ast.FormattedValue):
-                        ks |= sub(v.value)
-                return {'fmt'} if ks & {'raw', 'fmt'} else set()
-            if isinstance(e, ast.BinOp) and isinstance(e.op, (ast.Add, ast.Mod)):
-                ks = sub(e.left) | sub(e.right)
-                if isinstance(e.op, ast.Mod) and isinstance(e.right, ast.Tuple):
-                    for x in e.right.elts:
-                        ks |= sub(x)
-                return {'fmt'} if ks & {'raw', 'fmt'} else set()
-            return set()
 
-        def iter_taint(e: ast.AST, st: State, n: Node) -> set[str]:
-            return set()
+            def iter_taint(e: ast.AST, st: State, n: Node) -> set[str]:
+                return set()
 
-        T = Taint.__new__(Taint)
-        T.cfg = cfg
-        T.expr_taint = expr_taint
-        T.iter_taint = iter_taint
-        T.state_in = {}
-        T._run()
+            T_new = Taint.__new__(Taint)
+            T_new.cfg = cfg_
+            T_new.expr_taint = expr_taint
+            T_new.iter_taint = iter_taint
+            T_new.state_in = {}
+            holder_T.append(T_new)
+            T_new._run()
+            return T_new
+
+        # summaries of the local helpers: what their return value carries when the raw
+        # names of the enclosing function are raw (two rounds for self-recursive helpers)
+        helpers = [g for g in f.module.functions.values() if g.parent is f]
+        for _round in range(2):
+            for g in helpers:
+                gcfg = CFG(g.node, calls_may_raise)
+                Tg = make_taint(gcfg, set(raw_names))
+                out: set[str] = set()
+                for nd in gcfg.nodes:
+                    if nd.kind == 'stmt' and isinstance(nd.ast, ast.Return) \
+                            and nd.ast.value is not None:
+                        out |= Tg.value_taint(nd.ast.value, Tg.at(nd), nd) & {'raw', 'fmt'}
+                helper_ret[g.name] = {'fmt'} if out else set()
+        T = make_taint(cfg, set())
         for c in sink_calls:
             sinks += 1
             holder = [n for n in cfg.nodes if any(x is c for x in n.walk())]
